@@ -19,6 +19,8 @@ pub struct FnUnderEdit {
     pub loops: usize,
     pub auto_loop_ensures: BTreeMap<usize, Vec<String>>,
     pub anchors_placed: Vec<String>,
+    pub names: Vec<(String, String, String)>,
+    pub rename: BTreeMap<String, String>,
 }
 
 impl FnUnderEdit {
@@ -402,12 +404,164 @@ pub fn apply(repo: &str, req: &ItemReq, f: &mut FnUnderEdit) -> Result<(), Strin
     let n = num.n_bv;
     f.fire("break_value", n);
 
-    // anchors
+    // names of parameters and bindings; follow renames when the function kept its shape
+    f.names = collect_names(&f.sig, &f.block);
+    if !req.expect_names.is_empty() {
+        f.rename = rename_map(&req.expect_names, &f.names);
+    }
+
+    // anchors (`after-let:NAME` / `before-let:NAME` are written against the recorded names)
     for a in &req.anchors {
-        ctrl::place_anchor(&mut f.block, a)?;
+        let actual = translate_anchor(a, &f.rename);
+        ctrl::place_anchor_as(&mut f.block, &actual, a)?;
         f.anchors_placed.push(a.clone());
     }
     Ok(())
+}
+
+// ---------------------------------------------------------------- names of bindings (rename following)
+/// a coarse fingerprint of what a binding is initialised with (variant, literal text, callee / method name): two bindings that were
+/// swapped *and* renamed are told apart by it unless they are initialised alike
+fn shape_of(e: &syn::Expr) -> String {
+    match e {
+        syn::Expr::Lit(l) => format!("lit:{}", norm(&l.lit)),
+        syn::Expr::Array(a) => format!("array:{}", a.elems.len()),
+        syn::Expr::Repeat(_) => "repeat".into(),
+        syn::Expr::Call(c) => format!("call:{}", norm(&c.func)),
+        syn::Expr::MethodCall(m) => format!("method:{}", m.method),
+        syn::Expr::Try(t) => format!("try:{}", shape_of(&t.expr)),
+        syn::Expr::Await(t) => shape_of(&t.base),
+        syn::Expr::Paren(t) => shape_of(&t.expr),
+        syn::Expr::Reference(r) => format!("ref:{}", shape_of(&r.expr)),
+        syn::Expr::Match(m) => format!("match:{}", shape_of(&m.expr)),
+        syn::Expr::If(_) => "if".into(),
+        syn::Expr::Block(_) => "block".into(),
+        syn::Expr::Path(p) => format!("path:{}", p.path.segments.len()),
+        syn::Expr::Field(f) => format!("field:{}", norm(&f.member)),
+        syn::Expr::Struct(st) => format!("struct:{}", norm(&st.path)),
+        syn::Expr::Macro(m) => format!("macro:{}", norm(&m.mac.path)),
+        syn::Expr::Binary(_) => "binary".into(),
+        syn::Expr::Unary(_) => "unary".into(),
+        syn::Expr::Cast(_) => "cast".into(),
+        syn::Expr::Tuple(t) => format!("tuple:{}", t.elems.len()),
+        syn::Expr::Closure(_) => "closure".into(),
+        syn::Expr::Index(_) => "index".into(),
+        syn::Expr::Range(_) => "range".into(),
+        syn::Expr::Loop(_) | syn::Expr::While(_) | syn::Expr::ForLoop(_) => "loop".into(),
+        _ => "other".into(),
+    }
+}
+struct NameCollector {
+    out: Vec<(String, String, String)>,
+}
+fn pat_idents(p: &syn::Pat, kind: &str, shape: &str, out: &mut Vec<(String, String, String)>) {
+    struct V<'a> {
+        kind: &'a str,
+        shape: &'a str,
+        out: &'a mut Vec<(String, String, String)>,
+    }
+    impl<'a, 'ast> syn::visit::Visit<'ast> for V<'a> {
+        fn visit_pat_ident(&mut self, p: &'ast syn::PatIdent) {
+            let n = p.ident.to_string();
+            if !n.starts_with("__vx_") {
+                let k = if p.mutability.is_some() { format!("{}mut", self.kind) } else { self.kind.to_string() };
+                self.out.push((k, n, self.shape.to_string()));
+            }
+            if let Some((_, sub)) = &p.subpat {
+                self.visit_pat(sub);
+            }
+        }
+    }
+    let mut v = V { kind, shape, out };
+    syn::visit::Visit::visit_pat(&mut v, p);
+}
+impl<'ast> syn::visit::Visit<'ast> for NameCollector {
+    fn visit_local(&mut self, l: &'ast syn::Local) {
+        let shape = match &l.init { Some(i) => shape_of(&i.expr), None => "none".into() };
+        pat_idents(&l.pat, "let", &shape, &mut self.out);
+        syn::visit::visit_local(self, l);
+    }
+    fn visit_expr_for_loop(&mut self, f: &'ast syn::ExprForLoop) {
+        pat_idents(&f.pat, "for", &shape_of(&f.expr), &mut self.out);
+        syn::visit::visit_expr_for_loop(self, f);
+    }
+    fn visit_expr_let(&mut self, l: &'ast syn::ExprLet) {
+        pat_idents(&l.pat, "iflet", &shape_of(&l.expr), &mut self.out);
+        syn::visit::visit_expr_let(self, l);
+    }
+    fn visit_arm(&mut self, a: &'ast syn::Arm) {
+        pat_idents(&a.pat, "arm", "", &mut self.out);
+        syn::visit::visit_arm(self, a);
+    }
+}
+fn collect_names(sig: &syn::Signature, block: &syn::Block) -> Vec<(String, String, String)> {
+    let mut out = vec![];
+    for a in sig.inputs.iter() {
+        if let syn::FnArg::Typed(t) = a {
+            pat_idents(&t.pat, "param", &norm(&t.ty), &mut out);
+        }
+    }
+    let mut c = NameCollector { out };
+    syn::visit::Visit::visit_block(&mut c, block);
+    c.out
+}
+/// expected -> actual for identifiers that differ. Only if both lists have the same kinds and initialiser shapes in the same order,
+/// the mapping is a consistent injection, every new name is really new (not one of the recorded names) and every replaced name is
+/// really gone; otherwise empty (the text is used as written, and a lost name is a compile error: exit 2)
+fn rename_map(expect: &[(String, String, String)], actual: &[(String, String, String)]) -> BTreeMap<String, String> {
+    if expect.len() != actual.len() {
+        return BTreeMap::new();
+    }
+    let mut full: BTreeMap<String, String> = BTreeMap::new();
+    for ((ek, en, es), (ak, an, ash)) in expect.iter().zip(actual.iter()) {
+        if ek != ak || es != ash {
+            return BTreeMap::new();
+        }
+        match full.get(en) {
+            Some(prev) if prev != an => return BTreeMap::new(),
+            _ => {
+                full.insert(en.clone(), an.clone());
+            }
+        }
+    }
+    let mut seen: BTreeMap<String, String> = BTreeMap::new();
+    for (e, a) in full.iter() {
+        if let Some(prev) = seen.get(a) {
+            if prev != e {
+                return BTreeMap::new();
+            }
+        }
+        seen.insert(a.clone(), e.clone());
+    }
+    let expected_set: std::collections::BTreeSet<&String> = expect.iter().map(|x| &x.1).collect();
+    let actual_set: std::collections::BTreeSet<&String> = actual.iter().map(|x| &x.1).collect();
+    let mut map: BTreeMap<String, String> = BTreeMap::new();
+    for (e, a) in full {
+        if e != a {
+            if expected_set.contains(&a) || actual_set.contains(&e) {
+                return BTreeMap::new();
+            }
+            map.insert(e, a);
+        }
+    }
+    map
+}
+fn translate_anchor(a: &str, map: &BTreeMap<String, String>) -> String {
+    for pfx in ["after-let:", "before-let:"] {
+        if let Some(rest) = a.strip_prefix(pfx) {
+            let (name, count) = match rest.split_once('#') {
+                Some((n, c)) => (n, Some(c)),
+                None => (rest, None),
+            };
+            if let Some(n2) = map.get(name) {
+                return match count {
+                    Some(c) => format!("{pfx}{n2}#{c}"),
+                    None => format!("{pfx}{n2}"),
+                };
+            }
+        }
+    }
+    a.to_string()
 }
 
 pub fn apply_item(
